@@ -14,7 +14,7 @@ import (
 
 func genC04(rt *rapid.T) Scenario {
 	sc := genScenario(rt, Profile{MinTargets: 1, MaxTargets: 2, MinSets: 2, MaxSets: 6, MultiTarget: true, Poison: true, Refuse: true, Offline: true,
-		Faults: true, Transient: true, FaultInSync: true, HardFaults: true, Rollbacks: true, Serializable: true, Preempt: 2, Drawn: false, Pace: true})
+		Faults: true, Transient: true, FaultInSync: true, HardFaults: true, ParkWrites: true, Rollbacks: true, Serializable: true, Preempt: 2, Drawn: false, Pace: true})
 	sc.Drawn = rapid.IntRange(0, 1).Draw(rt, "drawn") == 1
 	if !sc.Drawn {
 		sc.Preempt = false
